@@ -257,6 +257,18 @@ fn step(kind: u8) -> (FdlActiveStation, FdlActiveStation, NondetPhy, crate::time
         // C01.no-tx-while-busy
         assert!(phy.tx_count == 0 && f.state == f0.state && phy.delivered == 0);
     }
+    // C01 bus-activity tracking: received telegrams reset the pending-byte counter (otherwise the first bytes of the
+    // next telegram would not be noticed as bus activity); new pending bytes are accounted for exactly once
+    if !busy0 {
+        if phy.delivered >= 1 { assert!(f.pending_bytes == 0); }
+        else if !matches!(f.state, State::Offline) { assert!(f.pending_bytes == if phy.pending > f0.pending_bytes { phy.pending } else { f0.pending_bytes }); }
+        if phy.delivered >= 1 && phy.tx_count == 0 && !matches!(f.state, State::Offline) {
+            // reception is bus activity "now"
+            assert!(f.last_bus_activity == Some(match f0.last_bus_activity { Some(l) if l > now => l, _ => now }));
+        }
+    } else {
+        assert!(f.pending_bytes == f0.pending_bytes);
+    }
     if phy.tx_count == 1 {
         // C01.tx-after-pause: every transmission starts more than 33 bit times after the last observed bus activity
         assert!(!busy0);
